@@ -13,6 +13,7 @@ import (
 
 	"github.com/vechain/thor/v2/block"
 	"github.com/vechain/thor/v2/thor"
+	"github.com/vechain/thor/v2/trie"
 	"github.com/vechain/thor/v2/tx"
 
 	"verif/harness/internal/hx"
@@ -52,6 +53,57 @@ func safely(name string, fails *[]string, f func()) {
 		}
 	}()
 	f()
+}
+
+// two fixed, different typed transactions that are marshalled between taking an encoding and using it: an encoding
+// handed out by MarshalBinary / EncodeRLP must stay what it was whatever is encoded afterwards
+var interleaved = []*tx.Transaction{
+	tx.NewBuilder(tx.TypeDynamicFee).ChainTag(0xa5).Nonce(0x1111111111111111).Gas(77777).MaxFeePerGas(big.NewInt(0x5a5a5a5a)).Build(),
+	tx.NewBuilder(tx.TypeLegacy).ChainTag(0x5a).Nonce(0x2222222222222222).Gas(88888).GasPriceCoef(200).Build(),
+}
+
+func disturb() {
+	for _, x := range interleaved {
+		_, _ = x.MarshalBinary()
+		_, _ = rlp.EncodeToBytes(x)
+		_ = x.Hash()
+	}
+}
+
+// stableMarshal: MarshalBinary, a copy taken at once, other transactions encoded, then the comparison
+func stableMarshal(t *tx.Transaction, fails *[]string) []byte {
+	mb, err := t.MarshalBinary()
+	if err != nil {
+		*fails = append(*fails, "encode-error:decoded tx does not marshal")
+		return nil
+	}
+	cp := bytes.Clone(mb)
+	disturb()
+	if !bytes.Equal(mb, cp) {
+		*fails = append(*fails, "encoding-aliased:the bytes returned by MarshalBinary changed after another transaction was encoded")
+	}
+	return mb
+}
+
+type encList [][]byte
+
+func (l encList) Len() int                 { return len(l) }
+func (l encList) EncodeIndex(i int) []byte { return l[i] }
+
+// refTxsRoot: trie.DeriveRoot over private copies of the canonical encodings, taken one at a time
+func refTxsRoot(txs tx.Transactions) thor.Bytes32 {
+	var l encList
+	for _, t := range txs {
+		mb, _ := t.MarshalBinary()
+		l = append(l, bytes.Clone(mb))
+	}
+	return trie.DeriveRoot(l)
+}
+
+func checkTxsRoot(txs tx.Transactions, fails *[]string) {
+	if got, want := txs.RootHash(), refTxsRoot(txs); got != want {
+		*fails = append(*fails, fmt.Sprintf("root-mismatch:Transactions.RootHash() of %d txs differs from DeriveRoot over copies of their encodings", len(txs)))
+	}
 }
 
 func igOf(t *tx.Transaction) (s string) {
@@ -207,10 +259,15 @@ func observe(kind string, in []byte) (o Obs) {
 		}
 		o.OK = true
 		o.Dump = dumpTx(&t)
-		mb, err1 := t.MarshalBinary()
+		mb := stableMarshal(&t, &o.Fails)
 		re, err2 := rlp.EncodeToBytes(&t)
-		if err1 != nil || err2 != nil {
+		if err2 != nil {
 			o.Fails = append(o.Fails, "encode-error:decoded tx does not encode")
+		}
+		reCopy := bytes.Clone(re)
+		disturb()
+		if !bytes.Equal(re, reCopy) {
+			o.Fails = append(o.Fails, "encoding-aliased:the bytes returned by rlp.EncodeToBytes(tx) changed after another transaction was encoded")
 		}
 		if kind == "TX" {
 			o.Reenc = re
@@ -310,13 +367,13 @@ func observe(kind string, in []byte) (o Obs) {
 				o.Fails = append(o.Fails, fmt.Sprintf("size-mismatch:block Size()=%d but the canonical encoding has %d bytes", sz, len(re)))
 			}
 			_ = b.String()
-			_ = b.Transactions().RootHash()
+			checkTxsRoot(b.Transactions(), &o.Fails)
 			_ = b.Body()
 		})
 		exerciseHeader(b.Header(), &o.Fails)
 		var igs []string
 		for _, t := range b.Transactions() {
-			mb, _ := t.MarshalBinary()
+			mb := stableMarshal(t, &o.Fails)
 			exerciseTx(t, mb, &o.Fails)
 			igs = append(igs, igOf(t))
 		}
